@@ -37,17 +37,33 @@ MeasureKey(m, tk, re, ce) ==
     [] m \in {"row_std_err", "row_percent_moe"}     -> SE2Dir("row", tk, re, ce)
     [] m \in {"table_std_err", "table_percent_moe"} -> SE2Dir("table", tk, re, ce)
     [] m = "population" -> PopCount(tk, re, ce)
+    [] m = "population_moe" ->
+         IF IsDiff(re) \/ IsDiff(ce) THEN AnyVal ELSE SE2Dir(PopDirection, tk, re, ce)
     [] m = "col_index"  -> ColIndex(tk, re, ce)
+    [] m \in {"valid_count_weighted"}   -> CountR(tk, re, ce, WS)
+    [] m \in {"valid_count_unweighted"} -> CountR(tk, re, ce, "n")
+    \* z and p as monotone functions of (sign, Z2): sign x Z2 orders like z, -Z2 like p
+    [] m = "z_score" -> LET z == ZScore(tk, re, ce) IN
+                        IF z[2] = AnyVal THEN AnyVal ELSE IF IsNaN(z[2]) THEN NaN
+                        ELSE IF z[1] < 0 THEN Neg(z[2]) ELSE z[2]
+    [] m = "p_value" -> LET z == ZScore(tk, re, ce) IN
+                        IF z[2] = AnyVal THEN AnyVal ELSE IF IsNaN(z[2]) THEN NaN ELSE Neg(z[2])
     [] m = "mean" -> IF IsIns(re) \/ IsIns(ce) THEN NaN ELSE YStat("mean", Co(tk, re, ce))
+    [] m = "stddev" -> IF IsIns(re) \/ IsIns(ce) THEN NaN ELSE YStat("stddev", Co(tk, re, ce))
     [] m = "sum"  -> SumOver(tk, re, ce)
+    [] m = "col_share_sum"   -> ShareDir("col", tk, re, ce)
+    [] m = "row_share_sum"   -> ShareDir("row", tk, re, ce)
+    [] m = "total_share_sum" -> ShareDir("table", tk, re, ce)
 
 KnownMeasure(m) ==
   m \in {"col_percent", "row_percent", "table_percent", "count_weighted", "count_unweighted",
          "col_base_unweighted", "col_base_weighted", "row_base_unweighted",
          "row_base_weighted", "table_base_unweighted", "table_base_weighted", "col_std_dev",
          "row_std_dev", "table_std_dev", "col_std_err", "col_percent_moe", "row_std_err",
-         "row_percent_moe", "table_std_err", "table_percent_moe", "population", "col_index"}
-  \/ (m \in {"mean", "sum"} /\ HasY)
+         "row_percent_moe", "table_std_err", "table_percent_moe", "population", "col_index",
+         "population_moe", "valid_count_weighted", "valid_count_unweighted", "z_score",
+         "p_value"}
+  \/ (m \in {"mean", "sum", "stddev", "col_share_sum", "row_share_sum", "total_share_sum"} /\ HasY)
 
 \* 1-D (strand) measures
 SMeasureKey(m, tk, re) ==
@@ -58,12 +74,17 @@ SMeasureKey(m, tk, re) ==
     [] m = "base_weighted"    -> RSt(TableBase(tk, re, NoEl, WS), WS)
     [] m = "percent_stddev"   -> SVar(tk, re)
     [] m \in {"percent_stderr", "percent_moe"} -> SSE2(tk, re)
+    [] m = "population" -> SPopProp(tk, re)
+    [] m = "population_moe" -> IF IsDiff(re) THEN AnyVal
+                               ELSE IF IsDate(DimR) THEN Zero ELSE SSE2(tk, re)
     [] m = "mean" -> IF IsIns(re) THEN NaN ELSE YStat("mean", Co(tk, re, NoEl))
     [] m = "sum"  -> SumOver(tk, re, NoEl)
+    [] m = "share_sum" -> IF IsDiff(re) THEN Div(SSignedSum(tk, re), TableSumTotal(tk))
+                          ELSE Div(SumOver(tk, re, NoEl), TableSumTotal(tk))
 SKnownMeasure(m) ==
   m \in {"percent", "count_weighted", "count_unweighted", "base_unweighted", "base_weighted",
-         "percent_stddev", "percent_stderr", "percent_moe"}
-  \/ (m \in {"mean", "sum"} /\ HasY)
+         "percent_stddev", "percent_stderr", "percent_moe", "population", "population_moe"}
+  \/ (m \in {"mean", "sum", "share_sum"} /\ HasY)
 
 \* marginal keyword -> key of a row element
 RowMarginalKey(m, tk, re) ==
